@@ -189,6 +189,9 @@ func replayTrCase(env *trEnv, c *trCase) (diff string) {
 		if u.Hh != "" { // the caller sets its own Host header
 			req.Host = u.Hh + ".example"
 			wantHost = req.Host
+		} else if (k+len(c.Reqs))%2 == 1 {
+			// a hand-built request: Request.Host left empty, the authority is the URL's (http.NewRequest pre-fills it)
+			req = &http.Request{Method: "GET", URL: req.URL, Header: http.Header{}, Proto: "HTTP/1.1", ProtoMajor: 1, ProtoMinor: 1}
 		}
 		env.mu.Lock()
 		env.seen = nil
